@@ -86,6 +86,7 @@ type symxer struct {
 	// loadVal: for a load resolved to exactly one reaching store, the stored value
 	loadVal    map[*ssa.UnOp]ssa.Value
 	lastSingle ssa.Value
+	inline     bool
 }
 
 func newSymx(p *Prog) *symxer {
@@ -225,6 +226,9 @@ func (sx *symxer) of1(v ssa.Value, d int) *Sx {
 		}
 		return &Sx{Op: "bin", Name: op, Args: []*Sx{a, b}}
 	case *ssa.Call:
+		if r := sx.inlineHelper(x, 0, d); r != nil {
+			return r
+		}
 		return sx.call(x.Common(), d)
 	case *ssa.Convert:
 		return &Sx{Op: "conv", Name: types.TypeString(x.Type(), shortQual), Args: []*Sx{sx.of(x.X, d-1)}}
@@ -246,6 +250,11 @@ func (sx *symxer) of1(v ssa.Value, d int) *Sx {
 		}
 		return &Sx{Op: "phi", Args: args}
 	case *ssa.Extract:
+		if cl, ok := x.Tuple.(*ssa.Call); ok {
+			if r := sx.inlineHelper(cl, x.Index, d); r != nil {
+				return r
+			}
+		}
 		t := sx.of(x.Tuple, d-1)
 		return &Sx{Op: "extract", Name: fmt.Sprint(x.Index), Args: []*Sx{t}}
 	case *ssa.Slice:
@@ -582,4 +591,59 @@ func (sx *symxer) loadCell(al *ssa.Alloc, path string, d int) *Sx {
 		args = append(args, sx.of(s.Val, d-1))
 	}
 	return &Sx{Op: "phi", Name: "", Args: args}
+}
+
+// inlineHelper: a call of an unexported, straight-line (single basic block) function of the module is the value
+// it returns, with the parameters replaced by the arguments — an expression moved into a small helper keeps its
+// canonical form. Anything else (branches, loops, exported API) stays a call node.
+func (sx *symxer) inlineHelper(cl *ssa.Call, idx int, d int) *Sx {
+	if !sx.inline || d <= 1 {
+		return nil
+	}
+	f := cl.Call.StaticCallee()
+	if f == nil || f.Blocks == nil || len(f.Blocks) != 1 || !inModule(f) || token.IsExported(f.Name()) || f.Parent() != nil || len(f.FreeVars) > 0 || f.Signature.Recv() != nil {
+		return nil
+	}
+	if f == cl.Parent() {
+		return nil
+	}
+	ret, ok := f.Blocks[0].Instrs[len(f.Blocks[0].Instrs)-1].(*ssa.Return)
+	if !ok || idx >= len(ret.Results) {
+		return nil
+	}
+	for _, in := range f.Blocks[0].Instrs {
+		switch in.(type) {
+		case *ssa.Go, *ssa.Defer, *ssa.Panic:
+			return nil
+		}
+	}
+	if len(cl.Call.Args) != len(f.Params) {
+		return nil
+	}
+	body := sx.of(ret.Results[idx], d-1)
+	sub := map[string]*Sx{}
+	for i := range f.Params {
+		sub[fmt.Sprintf("%s#%d", shortName(f), i)] = sx.of(cl.Call.Args[i], d-1)
+	}
+	var rew func(t *Sx, depth int) *Sx
+	rew = func(t *Sx, depth int) *Sx {
+		if t == nil || depth > 40 {
+			return t
+		}
+		if t.Op == "param" {
+			if a, ok := sub[t.Name]; ok {
+				return a
+			}
+			return t
+		}
+		if len(t.Args) == 0 {
+			return t
+		}
+		n := &Sx{Op: t.Op, Name: t.Name, V: t.V, Args: make([]*Sx, len(t.Args))}
+		for i, a := range t.Args {
+			n.Args[i] = rew(a, depth+1)
+		}
+		return n
+	}
+	return rew(body, 0)
 }
